@@ -794,13 +794,33 @@ impl<M: Math, T: Transformation<M>> Hamiltonian<M> for TransformedHamiltonian<M,
         point.index_in_trajectory = 0;
         point.initial_energy = point.energy();
         #[cfg(nuts_rs_verif)]
+        let verif_logdet_now = if crate::verif::tracing() {
+            // what the active transformation gives for this point, computed afresh
+            let mut y = math.new_array();
+            let mut gy = math.new_array();
+            match self.transformation().inv_transform_normalize(
+                math,
+                &point.untransformed_position,
+                &point.untransformed_gradient,
+                &mut y,
+                &mut gy,
+            ) {
+                Ok(v) => crate::verif::bits(v),
+                Err(_) => crate::verif::Json::Null,
+            }
+        } else {
+            crate::verif::Json::Null
+        };
+        #[cfg(nuts_rs_verif)]
         crate::verif::emit("momentum", || {
             crate::verif::json!({"ev": "momentum", "resample": resample_velocity,
                 "micro": self.kinetic_energy_kind == KineticEnergyKind::Microcanonical,
                 "v": crate::verif::bits_vec(&math.box_array(&point.velocity)),
                 "ke": crate::verif::bits(point.kinetic_energy),
                 "e": crate::verif::bits(point.energy()),
-                "e0": crate::verif::bits(point.initial_energy)})
+                "e0": crate::verif::bits(point.initial_energy),
+                "logdet": crate::verif::bits(point.logdet),
+                "logdet_now": verif_logdet_now})
         });
         Ok(())
     }
